@@ -2,8 +2,8 @@ package main
 
 import (
 	"fmt"
-	"os"
 	"go/types"
+	"os"
 	"sort"
 	"strings"
 
@@ -534,8 +534,8 @@ func (e *Engine) copyElems(st *State, pc *Term, et types.Type, dst, dstOff, src,
 		for j := int64(0); j < count.IVal.Int64(); j++ {
 			for _, lf := range ls {
 				e.leafComp(lf.comp, lf.t)
-				v := Select(e.comp(st, lf.comp), leafLoc(src, Add(srcOff, IntT(j)), lf.gids))
-				e.setComp(st, lf.comp, Store(e.comp(st, lf.comp), leafLoc(dst, Add(dstOff, IntT(j)), lf.gids), v))
+				v := Select(e.comp(st, lf.comp), leafLoc(src, ElemIndex(srcOff, IntT(j)), lf.gids))
+				e.setComp(st, lf.comp, Store(e.comp(st, lf.comp), leafLoc(dst, ElemIndex(dstOff, IntT(j)), lf.gids), v))
 			}
 		}
 		return
@@ -549,7 +549,7 @@ func (e *Engine) copyElems(st *State, pc *Term, et types.Type, dst, dstOff, src,
 		e.assume(pc, Forall([]*Term{l}, Implies(Neq(LocObj(l), LocObj(dst)), Eq(Select(nw, l), Select(old, l)))))
 		j := BoundVar(IntS)
 		e.assume(pc, Forall([]*Term{j}, Implies(And(Le(IntT(0), j), Lt(j, count)),
-			Eq(Select(nw, leafLoc(dst, Add(dstOff, j), lf.gids)), Select(old, leafLoc(src, Add(srcOff, j), lf.gids))))))
+			Eq(Select(nw, leafLoc(dst, ElemIndex(dstOff, j), lf.gids)), Select(old, leafLoc(src, ElemIndex(srcOff, j), lf.gids))))))
 		e.setComp(st, lf.comp, nw)
 	}
 }
@@ -558,6 +558,22 @@ func (e *Engine) appendSlices(st *State, pc *Term, et types.Type, s, t *Term) *T
 	m, n := SliceLen(s), SliceLen(t)
 	if t.Sort == StringS {
 		panic(outsideSubset("append(non-byte slice, string...)"))
+	}
+	if n.Op == "int" && n.IVal.Int64() <= 8 && !(m.Op == "int" && m.IVal.Int64() <= 8) {
+		// Accumulator pattern: a few elements appended to a slice of symbolic
+		// length.  Modelled in place (capacity is not tracked): exact when the
+		// capacity suffices, and observationally equivalent otherwise as long
+		// as no other live slice observes the spare capacity (stated
+		// assumption).  A nil slice gets a fresh backing array.
+		isNil := Eq(LocObj(SliceBase(s)), IntT(0))
+		nb := e.allocLoc(st)
+		base := Ite(isNil, nb, SliceBase(s))
+		off := Ite(isNil, IntT(0), SliceOff(s))
+		e.copyElems(st, pc, et, base, ElemIndex(off, m), SliceBase(t), SliceOff(t), n)
+		total := Add(m, n)
+		cp := Ite(Lt(SliceCap(s), total), total, SliceCap(s))
+		e.note("append modelled in place for symbolic-length accumulators")
+		return MkSlice(base, off, total, cp)
 	}
 	base := e.allocLoc(st)
 	e.copyElems(st, pc, et, base, IntT(0), SliceBase(s), SliceOff(s), m)
@@ -580,15 +596,15 @@ func (e *Engine) modularCall(c *CallCtx, ct *Contract) *Term {
 		e.addObl(c.fr, "requires", fmt.Sprintf("%s.%s@%s", shortFn(fn), cl.Label, c.label), cl.Props, c.pc, g, e.posOf(c.fr, c.instr))
 	}
 	pre := c.st.clone()
-	// havoc modifies
-	for _, cl := range ct.Modifies {
-		e.applyModifies(c, cl, pre)
-	}
 	// the callee may allocate
 	na := Fresh("alloc", IntS)
 	e.axiom(Ge(na, e.comp(pre, allocComp)))
 	e.noteAllocGe(na, e.comp(pre, allocComp))
 	e.setComp(c.st, allocComp, na)
+	// havoc modifies (new values may refer to objects the callee allocated)
+	for _, cl := range ct.Modifies {
+		e.applyModifies(c, cl, pre)
+	}
 	res := e.freshOfType(c.st, c.resT, "res:"+fn.Name())
 	var resArgs []*Term
 	if res.Op == "tuple" {
